@@ -307,10 +307,15 @@ def run(col):
         grid(col, pp, 60 if col.tier == 'quick' else 500)
     core.run_property(col, lambda: benchmachine.make_machine(col, pp, prof, mon),
                       budget(60, 1000, col.tier), tag='bench', stateful_step_count=budget(25, 40, col.tier))
+    from engines import programs
+    programs.run_c03(col, pp)
 
 
 def replay(col, case):
     pp = core.env.bootstrap()
+    if case.get('program'):
+        from engines import programs
+        return programs.replay_c03(col, pp, case)
     if case.get('grid'):
         return grid_case(col, pp, tuple(case['liquid']), case['v'], case['unit_c'], case['unit_q'], case['scenario'])
     benchmachine.replay_history(col, pp, case, Feasible(col))
